@@ -335,6 +335,35 @@ def _surrogate_variant(content, pub, path, rng, res, desc):
                          "surrogates of its UTF-8 bytes)", "impl": {k: v for k, v in i.items() if k != "bytes"}})
 
 
+def gpg_default_sequence(rng, res, d):
+    """sign with ordinary keys, then `--gpg` without a key id (the home's default key): in replace mode the file carries
+    the new signature only and no longer verifies with the replaced keys; with --append the old ones stay."""
+    if not W.gpg_available():
+        return
+    from in_toto.models.layout import Layout
+    from in_toto.models.metadata import Metablock
+    keys = rng.sample(W.pool(), 2)
+    sub = os.path.join(d, "gpgseq-%d" % rng.randrange(10**6))
+    os.makedirs(sub)
+    path = os.path.join(sub, "root.layout")
+    Metablock(signed=Layout(**rand_layout_kwargs(rng))).dump(path)
+    g = W.gpg_key("no_sub")
+    append = rng.random() < 0.4
+    st1 = cli.run_main("in_toto_sign", ["-f", path, "-k"] + [priv_path(k) for k in keys])[0]
+    st2 = cli.run_main("in_toto_sign", ["-f", path, "-g", "--gpg-home", g.gpg_home] + (["-a"] if append else []))[0]
+    ids = [s_["keyid"] for s_ in json.load(open(path, encoding="utf8"))["signatures"]]
+    old_still = [k.keyid[:8] for k in keys if cli.run_main("in_toto_sign", ["-f", path, "-k", write_pub(k, d), "--verify"])[0] == 0]
+    want_n = 3 if append else 1
+    ok = st1 == 0 and st2 == 0 and len(ids) == want_n and (len(old_still) == (2 if append else 0))
+    case = {"op": "gpg_default_sequence", "append": append, "keys": [k.kind for k in keys]}
+    res.case(dict(case, signatures=[i[:8] for i in ids], old_keys_still_verify=old_still), True, ok, sample_cap=1)
+    res.count("gpg_default_sequences")
+    if not ok:
+        res.fail("oracle", case, {"why": "after signing with two keys and then %s with the default gpg key the file carries %d signature(s) %r and "
+                                         "verifies with the earlier keys %r" % ("appending" if append else "replacing", len(ids), [i[:8] for i in ids], old_still),
+                                  "statuses": [st1, st2]})
+
+
 def shard_roundtrip(seed, idx, n, tier):
     res = core.Result()
     rng = core.rng_for(seed, "c09", "rt", idx)
@@ -345,6 +374,8 @@ def shard_roundtrip(seed, idx, n, tier):
             one_roundtrip(rng, res, d, j < ngpg)
         for _ in range(max(1, n // 5)):
             sign_sequence(rng, res, d)
+        if idx % 4 == 0:
+            gpg_default_sequence(rng, res, d)
     finally:
         shutil.rmtree(d, ignore_errors=True)
     return res
